@@ -1,10 +1,10 @@
 ------------------------------ MODULE MC_Stats ------------------------------
 (* Use (M) for the formatter half of C20: the design of readable_count in    *)
 (* exact arithmetic satisfies the oracle ReadableOk on every count of the    *)
-(* bands  Dense (0..20000),  m * 1024^k +- W  (m in {1, 10, 100, 1000, 1024},        *)
-(* k = 1..6)  and  2^e +- 2 (e <= 70)  when Threshold = "byLength"; with     *)
-(* Threshold = "gt10" (the code as written) TLC finds the band just below    *)
-(* 10 * 1024^k in which no significant digit is shown (must FAIL).           *)
+(* bands  Dense (0..20000),  m * 1024^k +- W  (m in {1, 10, 100, 1000,       *)
+(* 1024}, k = 1..6)  and  2^e +- 2 (e <= 70)  when Threshold = "byLength";   *)
+(* with Threshold = "gt10" (the code before its fix) TLC finds the band just *)
+(* below 10 * 1024^k in which no significant digit is shown (must FAIL).     *)
 EXTENDS Stats
 CONSTANTS Dense, W          \* Dense: set of small counts enumerated one by one
 VARIABLE n
